@@ -19,13 +19,14 @@ RowsA == {<<V(8)>>, <<V(0), V(0)>>, <<NZ, V(0)>>, <<V(2), V(-20)>>, <<V(8), V(8)
 BiasA == IF LEVEL >= 2 THEN {V(0), NZ, V(8), V(-20), V(1)} ELSE {V(0), NZ, V(-20)}
 Bd(k, v) == [k |-> k, v |-> v]
 NoSkip == <<Bd("inc", 1), Bd("exc", 0)>>
-AxesSkips == {NoSkip, <<Bd("inc", 2), Bd("unb", 0)>>, <<Bd("inc", 0), Bd("exc", 1)>>, <<Bd("inc", 1), Bd("inc", 2)>>}
+AxesSkips == {NoSkip, <<Bd("inc", 2), Bd("unb", 0)>>, <<Bd("inc", 0), Bd("exc", 1)>>, <<Bd("inc", 1), Bd("inc", 2)>>,
+              <<Bd("exc", 0), Bd("unb", 0)>>, <<Bd("exc", 1), Bd("inc", 3)>>}            \* exclusive lower bounds
 Opts == {[sort |-> so, simplify_zero |-> sz, simplify_taut |-> st, normalize |-> nm, axes_lo |-> ax[1], axes_hi |-> ax[2], rows_lo |-> NoSkip[1], rows_hi |-> NoSkip[2]] :
             so \in {0, 2, 5}, sz \in BOOLEAN, st \in BOOLEAN, nm \in BOOLEAN, ax \in AxesSkips}
 Precs == IF LEVEL >= 2 THEN {0, 2, 3} ELSE {2, 3}
 \* multi-row matrices for skip_rows
 Mats == {<<<<V(8), V(0)>>, <<V(0), V(0)>>, <<V(2), V(-20)>>, <<V(-3), V(1)>>>>}
-RowSkips == {NoSkip, <<Bd("inc", 1), Bd("unb", 0)>>, <<Bd("inc", 0), Bd("exc", 1)>>, <<Bd("inc", 1), Bd("inc", 2)>>}
+RowSkips == {NoSkip, <<Bd("inc", 1), Bd("unb", 0)>>, <<Bd("inc", 0), Bd("exc", 1)>>, <<Bd("inc", 1), Bd("inc", 2)>>, <<Bd("exc", 0), Bd("exc", 3)>>, <<Bd("unb", 0), Bd("exc", 1)>>}
 
 Init == stage = "init" /\ cur = [none |-> TRUE]
 OneRow == \E r \in RowsA, b \in BiasA, o \in Opts, p \in Precs, ap \in BOOLEAN :
